@@ -231,6 +231,7 @@ static struct {
   coap_session_t *p;
   long id;
 } sessmap[1024];
+static int vf_full_payload = 0; /* `fullpayload 1`: events carry whole payloads */
 static long next_sess_id = 1000;
 
 static long
@@ -346,7 +347,7 @@ ev_payload(const coap_pdu_t *pdu) {
     ev_int("ptot", (long)tot);
     snprintf(b, sizeof(b), "%016llx", (unsigned long long)fnv64(data, len));
     ev_str("pfnv", b);
-    if (len <= 96)
+    if (len <= 96 || (vf_full_payload && len <= 65536))
       ev_hex("phex", data, len);
     else {
       ev_hex("phead", data, 16);
@@ -1881,6 +1882,8 @@ run_command(void) {
     vf_pop_kill_at = atol(tok[1]);
   else if (!strcmp(c, "poplog"))
     vf_pop_log = atoi(tok[1]);
+  else if (!strcmp(c, "fullpayload"))
+    vf_full_payload = atoi(tok[1]);
   else if (!strcmp(c, "pops")) {
     ev_begin("pops");
     ev_int("ord", vf_pop_ord);
